@@ -917,6 +917,27 @@ impl Run {
                 let _ = self.pipes.send(theirs);
                 settle().await;
             }
+            "reconn" => {
+                // a new connection if the endpoint closed the previous one (or there is none)
+                if let Some(conn) = self.conn.as_mut() {
+                    let w = decode_wire(conn);
+                    if w.eof {
+                        conn.eof_seen = true;
+                    }
+                }
+                let closed = self.conn.as_ref().map(|c| c.eof_seen).unwrap_or(true);
+                line.insert("was_closed".into(), json!(closed));
+                if closed {
+                    if let Some(c) = self.conn.take() {
+                        c.reader_task.abort();
+                    }
+                    settle().await;
+                    let (c, theirs) = Conn::open(self.clock);
+                    self.conn = Some(c);
+                    let _ = self.pipes.send(theirs);
+                    settle().await;
+                }
+            }
             "cut" => {
                 if let Some(c) = self.conn.take() {
                     c.reader_task.abort();
